@@ -1,11 +1,14 @@
 #!/bin/bash
-# usage: try_seed.sh <seed-dir-with-patch.diff> <Cxx> [tier]   -- apply to /repo, run check, revert
+# usage: try_seed.sh <seed-dir-with-patch.diff> <Cxx> [tier]
+# Applies the seeded patch to a scratch COPY of /repo's working tree (never to /repo itself), runs the check against the
+# copy (VERIF_REPO), removes the copy.  Exit code of the check is printed as exit=<n>.
 set -u
-P=$1; C=$2; T=${3:-quick}
-cd /repo || exit 9
-git -C /repo status --short | grep -v '^??' && { echo "repo dirty"; exit 9; }
-git -C /repo apply "$P/patch.diff" || { echo "patch failed"; exit 9; }
-cd /verif && python3 -m harness.check "$C" "$T" > /tmp/try_seed.out 2>&1; rc=$?; tail -${TAIL:-15} /tmp/try_seed.out
+P=$(readlink -f "$1"); C=$2; T=${3:-quick}
+W=$(mktemp -d /var/tmp/seedrepo.XXXXXX)
+( cd /repo && git ls-files -z | rsync -a --files-from=- --from0 . "$W/" ) || exit 9
+( cd "$W" && git init -q . && git apply "$P/patch.diff" ) || { echo "patch failed"; rm -rf "$W"; exit 9; }
+rm -rf "$W/.git"
+cd /verif && VERIF_EVIDENCE_DIR="$W/evidence" VERIF_REPO="$W" python3 -m harness.check "$C" "$T" > /tmp/try_seed.$$.out 2>&1; rc=$?
+tail -${TAIL:-15} /tmp/try_seed.$$.out
 echo "exit=$rc"
-git -C /repo checkout -- . 
-git -C /repo status --short | head -3
+rm -rf "$W" /tmp/try_seed.$$.out
